@@ -942,6 +942,14 @@ def gen_malformed(tier, rng):
                 else:
                     c = rng.randrange(1, R); bad[i][:, c] = bad[i][:, 0]
                 wk = rng.choice(["none", "ones", "signed"])
+                if defect == kinds[0]:
+                    # slightly off: one entry of that projection multiplied by 1 + 2^-10 (P^T P - I about 2e-3: well above the validator's 1e-5
+                    # threshold, far below any integer defect); validator only, through the rational model
+                    near = [p.astype(np.float64) for p in ps]
+                    rr, cc = [int(x[0]) for x in np.nonzero(near[i])]
+                    near[i][rr, cc] *= (1 + 2.0 ** -10)
+                    yield dict(kind="p2", rational=True, w=None, fs=[rint(rng, (I, R)), rint(rng, (R, R)), rint(rng, (K, R))], ps=near,
+                               why=f"only the {pos} of {I} projections is slightly off (one entry times 1 + 2^-10)", views=[("validate",)])
                 yield dict(kind="p2", w=weights(rng, wk, R), wk=wk, fs=[rint(rng, (I, R)), rint(rng, (R, R)), rint(rng, (K, R))], ps=bad,
                            why=f"only the {pos} of {I} projections is not orthonormal ({defect})",
                            views=[("validate",), ("tensor",), ("slices",), ("vec",)] + [("slice", j) for j in range(I)] + [("unfolded", m) for m in range(3)])
@@ -1344,6 +1352,239 @@ def zero_order_cases(start_id, rng):
     return out
 
 
+# ----------------------------------------------------------------------------- complex CP tensors (Gaussian-integer entries)
+def garr_lit(a):
+    a = np.asarray(a)
+    return "(mk " + C.nat_list(list(a.shape)) + " [" + "; ".join(f"({C.z(int(x.real))}, {C.z(int(x.imag))})" for x in a.ravel().tolist()) + "])"
+
+
+def gint(rng, shape, lo=-2, hi=2):
+    n = int(np.prod(shape))
+    for _ in range(20):
+        v = [complex(rng.randint(lo, hi), rng.randint(lo, hi)) for _ in range(n)]
+        if any(v):
+            break
+    return np.array(v, dtype=np.complex128).reshape(shape)
+
+
+def complex_cp_run(w, fs, chk=None, record=True):
+    """all views of the complex CP tensor (w, fs) under both backends, tuple and CPTensor: (view literal, out literal) pairs for the Coq
+    case DCpG, number of calls, predicate messages [(view, message, known_class)]"""
+    import tensorly as tl
+    from tensorly import tenalg, cp_tensor as cp
+    R = fs[0].shape[1]
+    wv = np.ones(R, dtype=np.complex128) if w is None else np.asarray(w, dtype=np.complex128)
+    dense = np.zeros(tuple(f.shape[0] for f in fs), dtype=np.complex128)
+    for r in range(R):
+        term = np.array(wv[r])
+        for f in fs:
+            term = np.multiply.outer(term, f[:, r])
+        dense = dense + term
+    n2 = float((dense.real ** 2 + dense.imag ** 2).sum())
+    order = len(fs)
+    views = [("validate",), ("tensor",), ("vec",), ("norm",)] + [("unfolded", m) for m in range(order)]
+    cw = w is not None and bool(np.any(np.asarray(w).imag != 0))
+
+    def gout(v, res):
+        st, val = res
+        if st != "ok":
+            return "OErr"
+        if v[0] == "validate":
+            return out_lit(v, res)
+        if v[0] == "norm":
+            z = complex(val)
+            return f"(ONormC {C.q(z.real)} {C.q(z.imag)})" if np.isfinite(z.real) and np.isfinite(z.imag) else "OBad"
+        a = np.asarray(val)
+        if a.dtype.kind not in "cfiu" or not (np.all(a.real == np.round(a.real)) and np.all(a.imag == np.round(a.imag))):
+            return "OBad"
+        return f"(OTG {garr_lit(a.astype(np.complex128))})"
+    pairs, seen, msgs, ncalls = [], set(), [], 0
+    for be in ("core", "einsum"):
+        tenalg.set_backend(be)
+        try:
+            for kind in ("tuple", "wrapper"):
+                tup = (None if w is None else np.array(w), [f.copy() for f in fs])
+                x = tup if kind == "tuple" else cp.CPTensor(tup)
+                for v in views:
+                    if v[0] == "validate":
+                        call = (lambda: cp._validate_cp_tensor(x)) if kind == "tuple" else (lambda: (x.shape, x.rank))
+                    elif v[0] == "tensor":
+                        call = lambda: cp.cp_to_tensor(x)
+                    elif v[0] == "vec":
+                        call = lambda: cp.cp_to_vec(x)
+                    elif v[0] == "norm":
+                        call = (lambda: cp.cp_norm(x)) if kind == "tuple" else (lambda: x.norm())
+                    else:
+                        call = lambda: cp.cp_to_unfolded(x, v[1])
+                    res = C.call_impl(call, timeout=30); ncalls += 1
+                    if res == ("crash", "timeout"):
+                        SKIPPED["timeouts"] += 1; continue
+                    lit = (view_lit(v), gout(v, res))
+                    if lit not in seen:
+                        seen.add(lit); pairs.append(lit)
+                    msg = None
+                    if res[0] != "ok":
+                        msg = f"{v[0]} raised on a well-formed complex CP tensor: {res[1]}"
+                    elif v[0] == "tensor" and not (np.shape(res[1]) == dense.shape and np.array_equal(res[1], dense)):
+                        msg = "cp_to_tensor of a complex CP tensor differs from the sum of outer products"
+                    elif v[0] == "vec" and not np.array_equal(res[1], dense.reshape(-1)):
+                        msg = "cp_to_vec of a complex CP tensor differs from the vectorised sum of outer products"
+                    elif v[0] == "unfolded" and not np.array_equal(res[1], np.moveaxis(dense, v[1], 0).reshape(dense.shape[v[1]], -1)):
+                        msg = f"cp_to_unfolded(mode={v[1]}) of a complex CP tensor is not the unfolding of the reconstruction"
+                    elif v[0] == "norm":
+                        z = complex(res[1])
+                        if not (abs(z * z - n2) <= 1e-9 * (1 + n2)):
+                            msg = (f"cp_norm of a complex CP tensor = {z!r}, but the reconstruction has norm {n2 ** 0.5!r} "
+                                   f"(the Gram-Hadamard product takes w_r * w_s instead of w_r * conj(w_s))" if cw else
+                                   f"cp_norm of a complex CP tensor = {z!r}, but the reconstruction has norm {n2 ** 0.5!r}")
+                    if msg:
+                        msgs.append((v, msg, be, kind))
+                        if record and chk is not None:
+                            data = {"kind": "cpg", "w": None if w is None else [[float(x.real), float(x.imag)] for x in np.asarray(w, dtype=np.complex128)],
+                                    "fs": [{"shape": list(f.shape), "values": [[float(x.real), float(x.imag)] for x in f.ravel()]} for f in fs]}
+                            chk.finding("tensorly.cp_tensor." + FN[("cp", v[0])], dict(kind="cp (complex)", factor_shapes=[list(f.shape) for f in fs], complex_weights=cw,
+                                        view=vname(v), backend=be, input_kind=kind, data=data), msg, "C03_view_agrees_with_defining_contraction")
+        finally:
+            tenalg.set_backend("core")
+    return pairs, ncalls, msgs
+
+
+def complex_cp_cases(chk, start_id, rng, tier):
+    out = []
+    plan = [(1, 1, "complex")]   # the smallest witness first: order 1, rank 1
+    for _ in range(10 if tier == "quick" else 60):
+        plan.append((rng.randint(1, 3), rng.randint(1, 3), rng.choice(["none", "real", "complex", "complex"])))
+    for order, R, wk in plan:
+        s = [rng.randint(1, 3) for _ in range(order)]
+        fs = [gint(rng, (n, R)) for n in s]
+        w = None if wk == "none" else (np.array([rng.choice([-2, -1, 2, 3]) for _ in range(R)], dtype=np.float64) if wk == "real" else gint(rng, (R,)))
+        if wk == "complex" and not np.any(w.imag != 0):
+            w[0] = w[0] + 1j
+        pairs, ncalls, _ = complex_cp_run(w, fs, chk)
+        wl = "None" if w is None else f"(Some {garr_lit(np.asarray(w, dtype=np.complex128))})"
+        lit = f"(CViews {start_id + len(out)}%nat (DCpG {wl} [" + "; ".join(garr_lit(f) for f in fs) + "]) [" + "; ".join(f"({v}, {o})" for v, o in pairs) + "])"
+        out.append((lit, {"kind": "cp (complex)", "order": order, "factor_shapes": [list(f.shape) for f in fs], "weights": wk}, ncalls))
+    return out
+
+
+def complex_family_cases(chk, start_id, rng, tier):
+    """Tucker (also skip_factor / transpose_factors = CONJUGATE transposition), TT, TR and TT-matrix with ALL stored arrays complex
+    (Gaussian integers): validate / to_tensor / to_vec / every unfolding (/ to_matrix) under both backends, tuple and wrapper object, exactly,
+    against the model at GIops; predicate: plain complex loops (np.einsum on the stored arrays)"""
+    from tensorly import tenalg, tucker_tensor as tk, tt_tensor as tt, tr_tensor as tr, tt_matrix as tm
+    out = []
+
+    def gout(v, res):
+        st, val = res
+        if st != "ok":
+            return "OErr"
+        if v[0] == "validate":
+            return out_lit(v, res)
+        a = np.asarray(val)
+        if a.dtype.kind not in "cfiu" or not (np.all(a.real == np.round(a.real)) and np.all(a.imag == np.round(a.imag))):
+            return "OBad"
+        return f"(OTG {garr_lit(a.astype(np.complex128))})"
+
+    def chain_dense(cs, ring):
+        shape = tuple(c.shape[1] for c in cs); t = np.zeros(shape, dtype=np.complex128)
+        for idx in np.ndindex(*shape):
+            M = cs[0][:, idx[0], :]
+            for c, i in zip(cs[1:], idx[1:]):
+                M = M @ c[:, i, :]
+            t[idx] = np.trace(M) if ring else M[0, 0]
+        return t
+
+    def observe(kind, lit, build, fns, dense, order, desc, wrapper_cls=None, extra_views=(), kw=None):
+        views = [("validate",), ("tensor",), ("vec",)] + [("unfolded", m) for m in range(order)] + list(extra_views)
+        pairs, seen, ncalls = [], set(), 0
+        for be in ("core", "einsum"):
+            tenalg.set_backend(be)
+            try:
+                for ik in ("tuple", "wrapper"):
+                    if ik == "wrapper" and (wrapper_cls is None or kw):
+                        continue
+                    x = build() if ik == "tuple" else wrapper_cls(build())
+                    for v in views:
+                        if v[0] == "validate":
+                            call = (lambda: fns["validate"](x)) if ik == "tuple" else (lambda: (x.shape, x.rank))
+                        elif v[0] == "unfolded":
+                            call = lambda: fns["unfolded"](x, v[1], **(kw or {}))
+                        else:
+                            call = lambda: fns[v[0]](x, **(kw or {}))
+                        res = C.call_impl(call, timeout=30); ncalls += 1
+                        if res == ("crash", "timeout"):
+                            SKIPPED["timeouts"] += 1; continue
+                        l = (view_lit(v), gout(v, res))
+                        if l not in seen:
+                            seen.add(l); pairs.append(l)
+                        msg = None
+                        if v[0] == "validate":
+                            continue
+                        if res[0] != "ok":
+                            msg = f"{v[0]} raised on a well-formed complex {kind} decomposition: {res[1]}"
+                        else:
+                            exp = {"tensor": lambda: dense, "vec": lambda: dense.reshape(-1), "matrix": lambda: dense.reshape(int(np.prod(dense.shape[:dense.ndim // 2])), -1),
+                                   "unfolded": lambda: np.moveaxis(dense, v[1], 0).reshape(dense.shape[v[1]], -1)}[v[0]]()
+                            if not (np.shape(res[1]) == exp.shape and np.array_equal(res[1], exp)):
+                                msg = f"{v[0]}{v[1:]} of a complex {kind} decomposition differs from the defining contraction"
+                        if msg and chk is not None:
+                            chk.finding(EP[kind] + "." + FN[(kind, v[0])], dict(desc, view=vname(v), backend=be, input_kind=ik), msg, "C03_view_agrees_with_defining_contraction")
+            finally:
+                tenalg.set_backend("core")
+        out.append((f"(CViews {start_id + len(out)}%nat {lit} [" + "; ".join(f"({v}, {o})" for v, o in pairs) + "])", desc, ncalls))
+    glist = lambda l: "[" + "; ".join(garr_lit(a) for a in l) + "]"
+    for _ in range(3 if tier == "quick" else 15):
+        # Tucker: plain, skip_factor, transpose_factors (conjugate transposition)
+        o = rng.randint(2, 3); sh = [rng.randint(1, 3) for _ in range(o)]; rk = [rng.randint(1, 3) for _ in range(o)]
+        core = gint(rng, rk); fs = [gint(rng, (n, r)) for n, r in zip(sh, rk)]
+        letters = "abcd"[:o]; outl = "ijkl"[:o]
+        eq = letters + "," + ",".join(outl[k] + letters[k] for k in range(o)) + "->" + outl
+        dense = np.einsum(eq, core, *fs)
+        fn_tk = {"validate": tk._validate_tucker_tensor, "tensor": tk.tucker_to_tensor, "vec": tk.tucker_to_vec, "unfolded": tk.tucker_to_unfolded}
+        observe("tucker", f"(DTuckerG {garr_lit(core)} {glist(fs)} None false)", lambda: (core.copy(), [f.copy() for f in fs]), fn_tk, dense, o,
+                {"kind": "tucker (complex)", "factor_shapes": [list(f.shape) for f in fs]}, tk.TuckerTensor)
+        fsH = [f.conj().T.copy() for f in fs]   # stored as conjugate transposes: transpose_factors=True gives the same tensor back
+        observe("tucker", f"(DTuckerG {garr_lit(core)} {glist(fsH)} None true)", lambda: (core.copy(), [f.copy() for f in fsH]), fn_tk, dense, o,
+                {"kind": "tucker (complex, transpose_factors)", "factor_shapes": [list(f.shape) for f in fsH]}, None, kw={"transpose_factors": True})
+        sk = rng.randrange(o)
+        fs_sk = [np.eye(rk[k], dtype=np.complex128) if k == sk else f for k, f in enumerate(fs)]
+        observe("tucker", f"(DTuckerG {garr_lit(core)} {glist(fs)} (Some {C.nat(sk)}) false)", lambda: (core.copy(), [f.copy() for f in fs]), fn_tk, np.einsum(eq, core, *fs_sk), o,
+                {"kind": "tucker (complex, skip_factor)", "factor_shapes": [list(f.shape) for f in fs], "skip": sk}, None, kw={"skip_factor": sk})
+        # TT / TR
+        o = rng.randint(1, 3); sh = [rng.randint(1, 3) for _ in range(o)]
+        rk = [1] + [rng.randint(1, 3) for _ in range(o - 1)] + [1]
+        cs = [gint(rng, (rk[i], n, rk[i + 1])) for i, n in enumerate(sh)]
+        observe("tt", f"(DTtG {glist(cs)})", lambda: [c.copy() for c in cs], {"validate": tt._validate_tt_tensor, "tensor": tt.tt_to_tensor, "vec": tt.tt_to_vec, "unfolded": tt.tt_to_unfolded},
+                chain_dense(cs, False), o, {"kind": "tt (complex)", "factor_shapes": [list(c.shape) for c in cs]}, tt.TTTensor)
+        o = rng.randint(2, 3); sh = [rng.randint(1, 3) for _ in range(o)]; r0 = rng.randint(1, 3)
+        rk = [r0] + [rng.randint(1, 3) for _ in range(o - 1)] + [r0]
+        cs2 = [gint(rng, (rk[i], n, rk[i + 1])) for i, n in enumerate(sh)]
+        observe("tr", f"(DTrG {glist(cs2)})", lambda: [c.copy() for c in cs2], {"validate": tr._validate_tr_tensor, "tensor": tr.tr_to_tensor, "vec": tr.tr_to_vec, "unfolded": tr.tr_to_unfolded},
+                chain_dense(cs2, True), o, {"kind": "tr (complex)", "factor_shapes": [list(c.shape) for c in cs2]}, tr.TRTensor)
+        # TT-matrix
+        n = rng.randint(1, 2); ins = [rng.randint(1, 2) for _ in range(n)]; outs = [rng.randint(1, 2) for _ in range(n)]
+        rk = [1] + [rng.randint(1, 3) for _ in range(n - 1)] + [1]
+        cm = [gint(rng, (rk[i], ins[i], outs[i], rk[i + 1])) for i in range(n)]
+        dm = np.zeros(tuple(ins) + tuple(outs), dtype=np.complex128)
+        for i in np.ndindex(*ins):
+            for oo in np.ndindex(*outs):
+                M = cm[0][:, i[0], oo[0], :]
+                for c, a, b in zip(cm[1:], i[1:], oo[1:]):
+                    M = M @ c[:, a, b, :]
+                dm[i + oo] = M[0, 0]
+        observe("ttm", f"(DTtmG {glist(cm)})", lambda: [c.copy() for c in cm],
+                {"validate": tm._validate_tt_matrix, "tensor": tm.tt_matrix_to_tensor, "vec": tm.tt_matrix_to_vec, "unfolded": tm.tt_matrix_to_unfolded, "matrix": tm.tt_matrix_to_matrix},
+                dm, 2 * n, {"kind": "ttm (complex)", "factor_shapes": [list(c.shape) for c in cm]}, tm.TTMatrix, extra_views=[("matrix",)])
+    return out
+
+
+def clf_cp_norm_complex_weights(f):
+    return bool(f["inputs"].get("complex_weights")) and f["inputs"].get("view") == "norm" and f["inputs"].get("kind") == "cp (complex)"
+
+
+CLASSIFIERS["cp_norm_complex_weights"] = clf_cp_norm_complex_weights
+
+
 def run(chk):
     rng = random.Random(chk.seed)
     chk.build_proofs()
@@ -1390,6 +1631,14 @@ def run(chk):
         cases.append(lit); meta.append((desc, None))
         chk.count(key=("zero-order", desc["kind"], desc["type"]), nontrivial=False, n=ncalls)
         chk.hist("family", "0-order number")
+    for lit, desc, ncalls in complex_cp_cases(chk, len(meta), rng, tier):
+        cases.append(lit); meta.append((desc, None))
+        chk.count(key=("complex-cp", tuple(map(tuple, desc["factor_shapes"])), desc["weights"]), nontrivial=True, n=ncalls)
+        chk.hist("family", "cp/complex"); chk.hist("weights", "complex:" + desc["weights"])
+    for lit, desc, ncalls in complex_family_cases(chk, len(meta), rng, tier):
+        cases.append(lit); meta.append((desc, None))
+        chk.count(key=("complex", desc["kind"], tuple(map(tuple, desc["factor_shapes"]))), nontrivial=True, n=ncalls)
+        chk.hist("family", desc["kind"])
     failing, n_eval, broken = run_shards_with_retry(cases, shard=120 if tier == "quick" else 100)
     chk.checker_cmds.append("coqc (vm_compute) on generated build/cases/C03/*.v: Corr.C03.failing")
     chk.cov["traces_validated_against_impl"] = n_eval
@@ -1404,6 +1653,7 @@ def run(chk):
                        "weights {None, ones, signed non-unit} + masked; Tucker/TT/TR: all shapes of order 1-2 + sampled order 3-4 with random ranks in {1,2,3} incl. rank > dim, skip_factor, transpose_factors; "
                        "TT-matrix with 1-3 cores; PARAFAC2 with uneven slices; plus a malformed stream (mismatched ranks, wrong boundary ranks, open rings, wrong ndim, non-orthonormal and dyadic sub-orthonormal projections (validator through the model at Q), wrong counts, 1-D factors, a non-square PARAFAC2 B that must be rejected late, "
                        "operands np.einsum can broadcast: size-1 core modes / one-column factors / inner rank r against 1 / open boundary ranks, a TT with first boundary rank r0 and fitting rank products) observed through EVERY view under BOTH backends: Ok-with-the-same-value / Err exactly as the model says, and any reconstruction returned for a set the validator rejects is a finding; "
+                       "round 7: order-1 CP tensors with weights=None and a 0/1 (bool / int / float) or general integer mask on every run; tucker_to_tensor(modes=...) with repeated modes; PARAFAC2 with exactly one non-orthonormal projection at the first / middle / last position through every view; 0-order inputs (Python numbers) through the cp / tt functions; complex CP tensors with Gaussian-integer weights and factors (all views exactly, cp_norm against the model of the code as it is); "
                        "evaluations = implementation calls; a case is non-trivial if some factor has more than one entry; distinct key = (family, factor shapes, weights kind, options, malformation)")
     for b in broken:
         chk.broken.append({"what": "correspondence corr:C03 shard not evaluated", "detail": b})
@@ -1413,8 +1663,9 @@ def run(chk):
     chk.assumptions = ["integer-valued factors with |entries| <= 4, so every float64 partial sum is exact (no rounding gap between model and code)",
                        "the to_tensor routes are modelled for 2-D (and, rank 1, 1-D) CP factors, 2-D Tucker factors, 3-D TT/TR cores, 4-D TT-matrix cores; other ndims only through the validators",
                        "mixed-dtype / complex / half-integer factor sets are compared by VALUE after exact conversion (the model has no dtype); a complex array is split into two integer cases by linearity",
-                       "NumPy reshape/moveaxis/transpose behave as modelled in Base/Tensor.v (validated by C01's primitive cases)"]
-    chk.trusted += ["source tie corr:C03-src: the ast translation of the six validators into program terms (harness/props/C03_ast.py; CP and PARAFAC2: structural recognisers) and the reading of ein_chain as the equation ttm_equation N are trusted; the orthonormality test of _validate_parafac2_tensor is an oracle of its program",
+                       "NumPy reshape/moveaxis/transpose behave as modelled in Base/Tensor.v (validated by C01's primitive cases)",
+                       "complex CP tensors: Gaussian-integer entries with |re|, |im| <= 2, so every complex128 partial sum is exact; cp_norm (a complex square root) is compared through its square within 1e-9"]
+    chk.trusted += ["source tie corr:C03-src: the ast translation of the six validators into program terms (harness/props/C03_ast.py; CP and PARAFAC2: structural recognisers) is trusted; that the generic einsum semantics of Model/Tenalg.v (against which C03_ttm_einsum_is_np_einsum reads ein_chain as ttm_equation N) is np.einsum, and that renaming the labels of an equation does not change it, are trusted; the orthonormality test of _validate_parafac2_tensor is an oracle of its program",
                     "einsum backend: the einsum routes of CP (khatri_rao), Tucker (multi_mode_dot) and the TT-matrix are modelled separately (value of the single np.einsum call) and proved equal to the core routes on well-formed input; TT / TR / PARAFAC2 run the same code under both backends; on malformed operands the Tucker and TT-matrix einsum routes are compared against their models as well (tucker_to_tensor_einsum_b: exact contracted dimensions; ttm_to_tensor_einsum: the validator's conditions first); the einsum khatri_rao of CP is reached only after _validate_cp_tensor and is compared on accepted sets only",
                     "PARAFAC2 orthonormality threshold 1e-5 is modelled exactly (P^T P = I) which coincides on integer-valued projections"]
     _orig_load = C.load_known
@@ -1454,6 +1705,15 @@ def replay(payload):
         print("replay file names a broken theorem/correspondence, not an input:", payload.get("theorem_or_correspondence"))
         return 1
     inp = payload["inputs"]
+    if isinstance(inp.get("data"), dict) and inp["data"].get("kind") == "cpg":
+        C.reset_backends()
+        cx = lambda l: np.array([complex(a, b) for a, b in l], dtype=np.complex128)
+        w = None if inp["data"]["w"] is None else cx(inp["data"]["w"])
+        fs = [cx(f["values"]).reshape(f["shape"]) for f in inp["data"]["fs"]]
+        msgs = complex_cp_run(w, fs, None, record=False)[2]
+        for m in msgs[:5]:
+            print("replay:", m[2], m[3], vname(m[0]), "->", m[1])
+        return 1 if msgs else 0
     d = from_payload(inp["data"])
     C.reset_backends()
     malformed = bool(d.get("onedim") or d.get("late_reject")) or not well_formed_py(d)
